@@ -238,6 +238,14 @@ class HmacRules:
                 cap['sh_len'] = ln
                 cap['sh_out'] = outp
                 cap['sh_out_count'] = st.mem.get((outp[1], ('$count',))) if outp[0] == 'p' else None
+                if cap['sh_out_count'] is None and outp[0] == 'p' and len(outp[2]) >= 2 and isinstance(outp[2][-2], str) and isinstance(outp[2][-1], int):
+                    # a member array of known extent: room from the addressed element to its end
+                    for r_ in prog.records.values():
+                        for x_ in r_['fields']:
+                            if x_['d'][2:] == outp[2][-2]:
+                                t_ = prog.type(x_['t']) or {}
+                                if t_.get('k') == 'array' and t_.get('n'):
+                                    cap['sh_out_count'] = C(t_['n'] - outp[2][-1])
                 if src[0] == 'p' and ln[0] == 'c' and src[2] and isinstance(src[2][-1], int):
                     cap['outer'] = [I.load(st, (src[1], src[2][:-1] + (src[2][-1] + i,))) for i in range(ln[1])]
                 return [(st, ('void',))]
